@@ -12,8 +12,8 @@
 // Oracle: no panic, every name opened is a valid fs.FS name (hence under the root), no
 // sentinel outside the root is read or runs.
 //
-// Part B (module-graph histories, explicit-state search): all sequences of <= D import
-// statements over a 13-letter alphabet on the module tree {a (imports b), b, d/c, e (fails)}.
+// Part B (module-graph histories, explicit-state search): all sequences of <= D statements
+// over a 15-letter alphabet (14 import statements, one mutation between imports) on the module tree {a (imports b), d/c (imports b), b, d/b, e (imports b, then fails)}.
 // A small reference model (set of loaded modules, alias -> binding, per-module state) predicts
 // every probe of a generated script; every sequence is evaluated on the real implementation
 // with both importers. Oracle: module body runs at most once (and exactly as the model says),
@@ -335,7 +335,7 @@ func Check(r *ev.Run, replay string) {
 	partB(r, depth)
 	r.Set("part_a_wall_s", int(t1.Sub(t0).Seconds()))
 	r.Set("part_b_wall_s", int(time.Since(t1).Seconds()))
-	r.Set("rule", fmt.Sprintf("A: %d import spellings x every path text with <= %d segments over the 9-segment alphabet (x leading/trailing '/') and <= %d segments over the 17-segment extended alphabet x {FSImporter strict fs, FSImporter naive fs, LocalImporter on disk}; B: explicit-state search over every sequence of <= %d import statements from a 13-letter alphabet on the module tree {a->b, b, d/c, e(fails)} x {FSImporter, LocalImporter}, each sequence checked against the reference model with probes after every mutation through every alias. distinct = distinct (part, importer, spelling, outcome class, modules run) tuples for A and distinct (model state, run counts) for B", len(spellings), nA, nX, depth))
+	r.Set("rule", fmt.Sprintf("A: %d import spellings x every path text with <= %d segments over the 9-segment alphabet (x leading/trailing '/') and <= %d segments over the 17-segment extended alphabet x {FSImporter strict fs, FSImporter naive fs, LocalImporter on disk}; B: explicit-state search over every sequence of <= %d import statements from a %d-letter alphabet (14 import statements + one mutation between imports) on the module tree {a->b, d/c->b, b, d/b, e->b (fails)} x {FSImporter, LocalImporter}, each sequence checked against the reference model with probes after every mutation through every alias. distinct = distinct (part, importer, spelling, outcome class, modules run) tuples for A and distinct (model state, run counts) for B", len(spellings), nA, nX, depth, len(letters)))
 }
 
 // ---------------------------------------------------------------- part A
@@ -620,8 +620,10 @@ func getitems() {
 var modsB = map[string]string{
 	"a.risor": "import b\ntick(\"a\")\nx := \"a.x0\"\n" + modAPI +
 		"func bx() {\n\treturn b.getx()\n}\nfunc bsetx(v) {\n\tb.setx(v)\n}\n",
-	"b.risor":   "tick(\"b\")\nx := \"b.x0\"\n" + modAPI,
-	"d/c.risor": "tick(\"d/c\")\nx := \"d/c.x0\"\n" + modAPI,
+	"b.risor": "tick(\"b\")\nx := \"b.x0\"\n" + modAPI,
+	"d/c.risor": "import b\ntick(\"d/c\")\nx := \"d/c.x0\"\n" + modAPI +
+		"func bx() {\n\treturn b.getx()\n}\nfunc bsetx(v) {\n\tb.setx(v)\n}\n",
+	"d/b.risor": "tick(\"d/b\")\nx := \"d/b.x0\"\n" + modAPI, // shares its short name with the top-level b
 	"e.risor":   "import b\ntick(\"e\")\nx := \"e.x0\"\nerror(\"boom\")\n",
 }
 
@@ -644,28 +646,29 @@ type bind struct {
 }
 
 type model struct {
-	loaded map[string]bool
-	names  []string
-	binds  map[string]bind
-	mx     map[string]string
-	mitems map[string][]string
-	sx     string
-	sitems []string
-	eTries int
+	loaded  map[string]bool
+	names   []string
+	binds   map[string]bind
+	mx      map[string]string
+	mitems  map[string][]string
+	sx      string
+	sitems  []string
+	eTries  int
+	mutated map[string]bool
 }
 
 func newModel() *model {
 	return &model{
-		loaded: map[string]bool{}, binds: map[string]bind{},
-		mx:     map[string]string{"a": `"a.x0"`, "b": `"b.x0"`, "d/c": `"d/c.x0"`},
+		loaded: map[string]bool{}, binds: map[string]bind{}, mutated: map[string]bool{},
+		mx:     map[string]string{"a": `"a.x0"`, "b": `"b.x0"`, "d/c": `"d/c.x0"`, "d/b": `"d/b.x0"`},
 		mitems: map[string][]string{},
 		sx:     `"s.x0"`, sitems: []string{`"s"`},
 	}
 }
 
 func (m *model) load(mod string) {
-	if mod == "a" {
-		m.loaded["b"] = true
+	if mod == "a" || mod == "d/c" {
+		m.loaded["b"] = true // a and d/c both import b (diamond with the script's own import of b)
 	}
 	m.loaded[mod] = true
 }
@@ -696,6 +699,14 @@ func (m *model) key() string {
 	e := ""
 	if m.eTries > 0 {
 		e = "|e-failed"
+	}
+	var mu []string
+	for k := range m.mutated {
+		mu = append(mu, k)
+	}
+	sort.Strings(mu)
+	if len(mu) > 0 {
+		e += "|mutated:" + strings.Join(mu, ",")
 	}
 	return strings.Join(ld, ",") + "|" + strings.Join(al, ",") + e
 }
@@ -766,6 +777,11 @@ var letters = []letter{
 		m.bind("c2", bind{"mod", "d/c", ""})
 		return "from d import (\n\tc as c2,\n)"
 	}},
+	{"from d import b as db (d/b shares its short name with b)", func(m *model, pos int) string {
+		m.load("d/b")
+		m.bind("db", bind{"mod", "d/b", ""})
+		return "from d import b as db"
+	}},
 	{"try(import e) fails after importing b", func(m *model, pos int) string {
 		m.load("b")
 		m.eTries++
@@ -780,6 +796,31 @@ var letters = []letter{
 		}
 		return s + "bset = " + g + "()"
 	}},
+}
+
+// the last letter is not an import: it mutates a module between imports, so that a later import
+// of the same module (under any spelling) must show the mutated state, not a re-initialised one.
+func init() {
+	letters = append(letters, letter{"setx through the first bound alias (between imports)", func(m *model, pos int) string {
+		for _, n := range m.names {
+			b := m.binds[n]
+			var stmt string
+			switch {
+			case b.Kind == "mod":
+				stmt = n + ".setx($v)"
+			case b.Kind == "fn" && b.Fn == "setx":
+				stmt = n + "($v)"
+			default:
+				continue
+			}
+			val := strconv.Itoa(900 + pos)
+			m.mx[b.Mod] = val
+			m.mitems[b.Mod] = append(append([]string{}, m.mitems[b.Mod]...), val)
+			m.mutated[b.Mod] = true
+			return strings.ReplaceAll(stmt, "$v", val)
+		}
+		return "// nothing bound yet that could mutate a module"
+	}})
 }
 
 type probe struct {
@@ -825,7 +866,7 @@ func genScript(seq []int) script {
 				emit(n+".getx()", m.mx[b.Mod], b.Mod, phase, after, amod)
 				emit(n+".items", renderList(m.mitems[b.Mod]), b.Mod, phase, after, amod)
 				emit(n+".getitems()", renderList(m.mitems[b.Mod]), b.Mod, phase, after, amod)
-				if b.Mod == "a" {
+				if b.Mod == "a" || b.Mod == "d/c" {
 					emit(n+".bx()", m.mx["b"], "b", phase, after, amod)
 				}
 			case "fn":
@@ -856,7 +897,7 @@ func genScript(seq []int) script {
 		case b.Kind == "mod":
 			mutate(n+".setx($v)", b.Mod, true)
 			mutate(n+".items.append($v)", b.Mod, false)
-			if b.Mod == "a" {
+			if b.Mod == "a" || b.Mod == "d/c" {
 				mutate(n+".bsetx($v)", "b", true)
 			}
 		case b.Kind == "fn" && b.Fn == "setx":
@@ -920,7 +961,7 @@ func judgeB(col *collector, idx int, c caseB, sc script, res result) (bad []stri
 			rep("import-root-escape:outside-module-ran", "a same-named module outside the root ran: "+k, k, "modules under the root only")
 		}
 	}
-	for _, mod := range []string{"a", "b", "d/c"} {
+	for _, mod := range []string{"a", "b", "d/c", "d/b"} {
 		want := 0
 		if sc.Loaded[mod] {
 			want = 1
